@@ -51,6 +51,7 @@ class Post:
         self.acct, self.kind, self.amt, self.cost, self.lot, self.vcost = acct, kind, amt, cost, lot, vcost
         self.lot_date, self.lot_note = None, None       # the written [date] and (note) of a lot: part of the commodity's identity
         self.indent, self.sep = '    ', None            # the written layout; sep None = four spaces and no line for the model
+        self.lot_fixed = False                          # the lot price written {=PRICE}: a fixated price
 
     def must_balance(self):
         return self.kind != 'V'
@@ -61,7 +62,7 @@ class Post:
             return None
         if self.lot is None:
             return self.amt.sym
-        return ('%s~{%s/%s %s}' % (self.amt.sym, self.lot.value.numerator, self.lot.value.denominator, self.lot.sym) +
+        return ('%s~{%s%s/%s %s}' % (self.amt.sym, '=' if getattr(self, 'lot_fixed', False) else '', self.lot.value.numerator, self.lot.value.denominator, self.lot.sym) +
                 (' [%s]' % self.lot_date if getattr(self, 'lot_date', None) else '') +
                 (' (%s)' % self.lot_note if getattr(self, 'lot_note', None) else ''))
 
@@ -71,7 +72,7 @@ class Post:
             return self.indent + a + (self.sep or '')
         s = self.amt.text()
         if self.lot is not None:
-            s += ' {%s}' % self.lot.text()
+            s += ' {%s%s}' % ('=' if getattr(self, 'lot_fixed', False) else '', self.lot.text())
             if getattr(self, 'lot_date', None):
                 s += ' [%s]' % self.lot_date
             if getattr(self, 'lot_note', None):
@@ -225,10 +226,12 @@ def canon_amount(r):
         pm = ANN_RE.search(ann)
         if pm:
             pt = pm.group(1).strip()
+            fixed = pt.startswith('=')
+            pt = pt.lstrip('=').strip()
             mm = re.fullmatch(r'(\D*?)\s*(-?[\d.,]+)\s*(\D*)', pt)
             psym = (mm.group(1) or mm.group(3)).strip()
             pv = F(mm.group(2).replace(',', ''))
-            key = '%s~{%s/%s %s}' % (sym, pv.numerator, pv.denominator, psym)
+            key = '%s~{%s%s/%s %s}' % (sym, '=' if fixed else '', pv.numerator, pv.denominator, psym)
             dm = re.search(r'\[([^\]]*)\]', ann)
             nm = re.search(r'\(([^)]*)\)', ann[pm.end():])
             if dm:
